@@ -24,7 +24,7 @@ INDENTS = ["\t", " ", "  ", "", "    "]
 VCOLS = [0, 0, 5, 12, 20, 40, "auto"]
 SEPS = ["\n\n", "\n\n", "\n", "", " ", "\n\n\n", "\n \n"]
 
-K_LINE, C_LINE = 80, 5000        # deterministic step budget: line events <= K*len(text)+C
+K_LINE, C_LINE = 200, 20000        # deterministic step budget: line events <= K*len(text)+C
 
 
 class StepBudgetExceeded(BaseException):
